@@ -19,8 +19,9 @@ def regenerate(chk):
     if ops != tr_opcodes.committed():
         problems.append('opcode enumeration of mir.h differs from coq/Mir/Opcode.v')
     tr_c02_interp.main()
-    import tr_c02_gvn, tr_c02_peephole, tr_c02_x86pat, tr_c02_x86builtin
+    import tr_c02_gvn, tr_c02_peephole, tr_c02_x86pat, tr_c02_x86builtin, tr_c02_addr
     tr_c02_gvn.main()
+    chk.addr_table = tr_c02_addr.main()
     tr_c02_peephole.main()
     problems += tr_c02_x86pat.main() or []
     problems += tr_c02_x86builtin.main() or []
